@@ -993,6 +993,9 @@ impl SQLExpression for sql_ast::Expr {
 
             sql_ast::Expr::IsNull(_) | sql_ast::Expr::IsNotNull(_) => 5,
 
+            // `a BETWEEN x AND y = b` would parse as `a BETWEEN x AND (y = b)`
+            sql_ast::Expr::Between { .. } => 6,
+
             // all other items types bind stronger (function calls, literals, ...)
             _ => 20,
         }
